@@ -27,13 +27,14 @@ def check_C05(run):
     thorough = run.tier == "thorough"
     c05, _ = idl_gen(run, 2 if thorough else 1, False)
     run.extra["description_space"] = len(c05)
-    descs = c05 if (thorough or len(c05) <= 260) else run.rng.sample(c05, 260)
+    deep = [c for c in c05 if len(c) > 4000]          # the deep-nesting family D3 is always run
+    descs = c05 if (thorough or len(c05) <= 260) else run.rng.sample(c05, 260) + deep
     args = ["idl", "-mode", "c05", "-randlay", "6" if thorough else "3"] + ([] if thorough else ["-pergap", "4"])
     table_replay(run, descs, args, "IdlTrace", TR_CFG, "C05 generated descriptions x layouts", shards=16,
                  nontrivial=lambda c: '"lay":["","sp","lf"' not in c)
     idl_names(run, "C05 name shapes: every well-formed interface / field name is accepted and kept as written", thorough)
     run.write_evidence("model_checking",
-        "name shapes = all strings up to 6 (thorough 7) characters over {a, B, 9, -, .} as interface name and up to 4 over {a, B, 9, _} as field name of a method, of a nested struct and as enum member (spec/IdlNames.tla); descriptions = TLC-enumerated sets D1(depth) and D2 of spec/Idl.tla (every type tree of depth <= 1 (thorough 2) - builtins, named reference, optional, array, string-keyed map, struct, enum - at every position: alias body, method input field, method output field, error parameter; all orders of up to 3 members incl. typeless errors; 6 interface-name classes); layouts = canonical + every permitted gap kind at every gap position (quick: 4 seeded kinds per position) + random multi-gap layouts, gap kinds: none, space(s), tab, LF, CRLF, trailing comment, comment-only line, empty comment, doc block of 1/2 lines, doc block followed by a blank line, final comment without newline; TLC requires the returned tree to equal the generated one, the docs to be what the layout implies, the text verbatim; non-trivial = a non-canonical layout",
+        "name shapes = all strings up to 6 (thorough 7) characters over {a, B, 9, -, .} as interface name and up to 4 over {a, B, 9, _} as field name of a method, of a nested struct and as enum member (spec/IdlNames.tla); descriptions = TLC-enumerated sets D1(depth) and D2 of spec/Idl.tla (every type tree of depth <= 1 (thorough 2) - builtins, named reference, optional, array, string-keyed map, struct, enum - at every position: alias body, method input field, method output field, error parameter; all orders of up to 3 members incl. typeless errors; 7 interface-name classes; D3: one constructor or a mix nested 36-100 times); layouts = canonical + every permitted gap kind at every gap position (quick: 4 seeded kinds per position) + random multi-gap layouts, gap kinds: none, space(s), tab, LF, CRLF, trailing comment, comment-only line, empty comment, doc block of 1/2 lines, doc block followed by a blank line, final comment without newline; TLC requires the returned tree to equal the generated one, the docs to be what the layout implies, the text verbatim; non-trivial = a non-canonical layout",
         exhaustive=thorough,
         assumptions=["documentation text is specified for comment lines of the form '# text' and the empty comment '#'",
                      "an error's optional type is read on the same line (anchored mechanism)",
